@@ -144,17 +144,21 @@ class PenalizedSystem2D:
             Default is 2 (second order difference).
 
         """
-        self.diff_order = _check_scalar_variable(
+        # validate and build everything before modifying the system so that a rejected
+        # request leaves the system unchanged
+        diff_order = _check_scalar_variable(
             diff_order, allow_zero=False, variable_name='difference order', two_d=True, dtype=int
         )
-        self.lam = _check_lam(lam, two_d=True)
+        lam = _check_lam(lam, two_d=True)
 
-        penalty_rows = diff_penalty_matrix(self._num_bases[0], self.diff_order[0])
-        penalty_columns = diff_penalty_matrix(self._num_bases[1], self.diff_order[1])
+        penalty_rows = diff_penalty_matrix(self._num_bases[0], diff_order[0])
+        penalty_columns = diff_penalty_matrix(self._num_bases[1], diff_order[1])
 
         # multiplying lam by the Kronecker product is the same as multiplying just D.T @ D with lam
-        P_rows = kron(self.lam[0] * penalty_rows, identity(self._num_bases[1]))
-        P_columns = kron(identity(self._num_bases[0]), self.lam[1] * penalty_columns)
+        P_rows = kron(lam[0] * penalty_rows, identity(self._num_bases[1]))
+        P_columns = kron(identity(self._num_bases[0]), lam[1] * penalty_columns)
+        self.diff_order = diff_order
+        self.lam = lam
         self.penalty = P_rows + P_columns
 
         self._update_bands()
@@ -312,27 +316,32 @@ class WhittakerSystem2D(PenalizedSystem2D):
             super().reset_diagonals(lam, diff_order)
             return
 
-        self.diff_order = _check_scalar_variable(
+        # validate and calculate everything before modifying the system so that a rejected
+        # request leaves the system unchanged
+        diff_order = _check_scalar_variable(
             diff_order, allow_zero=False, variable_name='difference order', two_d=True, dtype=int
         )
-        self.lam = _check_lam(lam, two_d=True)
+        lam = _check_lam(lam, two_d=True)
 
         # initially need num_bases to point to the data shape; maybe set a second
         # attribute insteaad
         values_rows, vectors_rows = self._calc_eigenvalues(
-            self._num_points[0], self.diff_order[0], self._num_bases[0]
+            self._num_points[0], diff_order[0], self._num_bases[0]
         )
         # TODO if all else matches, just calc the max eigens and use indexing for the lower one
         if (
-            self.diff_order[0] == self.diff_order[1]
+            diff_order[0] == diff_order[1]
             and self._num_points[0] == self._num_points[1]
             and self._num_bases[0] == self._num_bases[1]
         ):
             values_columns, vectors_columns = values_rows, vectors_rows
         else:
             values_columns, vectors_columns = self._calc_eigenvalues(
-                self._num_points[1], self.diff_order[1], self._num_bases[1]
+                self._num_points[1], diff_order[1], self._num_bases[1]
             )
+
+        self.diff_order = diff_order
+        self.lam = lam
         # the eigenvalues are a diagonal matrix, so can simplify since
         # kron(diagonal, identity(N)) == np.repeat(diagonal, N) and
         # kron(identity(M), diaonal2) == np.tile(diagonal2, M)
